@@ -216,6 +216,24 @@ def run_case(case, ctx):
     kinds, cut_at, cut_between = set(), False, False
     ev_times = sorted({t for tg, t, _ in full.trace if tg != WARMUP})
     try:
+        if len(sched) % 5 == 2:
+            # the simulator has served another replication before - with another run length (half or double): nothing of
+            # it (its end time, its bound) is left when the judged replication runs
+            from pydsol.core.experiment import SingleReplication
+            from vlib.simharness import time_value
+            r = prog["rep"]
+            normal = h.replication
+            f = 2 if len(sched) % 2 else 0.5
+            ln = tnum(prog, r["length"]) * f
+            ln = int(ln) if prog["clock"] == "int" else ln
+            h.replication = SingleReplication("earlier", time_value(prog, r["start"]), time_value(prog, r["warmup"]) * 0,
+                                              time_value(prog, [float(ln), "s"] if prog["clock"] == "duration" else ln))
+            ctx.count("schedules_on_a_simulator_that_served_another_run_length")
+            if h.cmd("initialize") == "ok" and h.cmd("start") == "ok":
+                h.wait_quiescent(20)
+            h.replication = normal
+            h.reset_logs()
+            where["earlier_run_length_factor"] = f
         if h.cmd("initialize") != "ok":
             ctx.viol("initialize-raises", where)
             return
